@@ -122,6 +122,14 @@ def quote(s):
     return '"%s"' % s.replace('"', '""')
 
 
+class SetAfter(dict):
+    """Cell content that is written with set_cell_value after compilation."""
+
+    def __init__(self, value):
+        dict.__init__(self, set_cell_value_after_compile=value)
+        self.value = value
+
+
 class Sheet:
     """Collects the cells of one case.  Helper cells are allocated downwards
     in column A from row 1, ranges in columns C.. from row 20; formulas under
@@ -153,7 +161,12 @@ class Sheet:
         if k == 'bool':
             return bool(spec[1])
         if k == 'str':
-            if spec[1] == '' or spec[1].startswith('='):
+            if spec[1] == '':
+                # a CONSTANT cell holding the empty text (the dict reader
+                # cannot take it: it is written with set_cell_value after
+                # the model has been compiled)
+                return SetAfter('')
+            if spec[1].startswith('='):
                 return '=' + quote(spec[1])
             return spec[1]
         if k == 'None':
@@ -241,9 +254,13 @@ def evaluate(sheet, formula, chain=False):
         cells['%s!Z2' % sheet.sheet] = '=Z1'
         cells['%s!Z3' % sheet.sheet] = '=Z2'
         at = '%s!Z3' % sheet.sheet
+    later = {a: v.value for a, v in cells.items() if isinstance(v, SetAfter)}
+    cells = {a: v for a, v in cells.items() if a not in later}
     try:
         with lib.time_limit():
             model = lib.compile_dict(cells)
+            for a, v in later.items():
+                model.set_cell_value(a, v)
     except lib.CaseTimeout:
         return 'compile-timeout'
     except RecursionError:
